@@ -7,6 +7,7 @@ import (
 	"sort"
 	"strings"
 	"testing"
+	"time"
 
 	"verif/evid"
 	"verif/kit"
@@ -17,12 +18,13 @@ import (
 
 // mnode is a node of a generated module tree.
 type mnode struct {
-	Name     string   // module node
-	Children []*mnode // module node
-	Twice    bool     // module node: the option is built twice from the same entry slice, the second one is used
-	Leaf     string   // "", add, remove, removeKeyed, nil
-	Reg      int      // index into the registration list (add)
-	T        int      // type id (remove*)
+	Name     string            // module node
+	Children []*mnode          // module node
+	Twice    bool              // module node: the option is built twice from the same entry slice, the second one is used
+	Leaf     string            // "", add, remove, removeKeyed, nil, gate
+	Gate     godi.ModuleOption // gate leaf: an entry written by the harness that registers nothing
+	Reg      int               // index into the registration list (add)
+	T        int               // type id (remove*)
 }
 
 func (n *mnode) String() string {
@@ -35,6 +37,8 @@ func (n *mnode) String() string {
 		return "removeKeyed(" + kit.TypeName(n.T) + ",a)"
 	case "nil":
 		return "nil"
+	case "gate":
+		return "GATE"
 	}
 	parts := make([]string, len(n.Children))
 	for i, c := range n.Children {
@@ -99,6 +103,8 @@ func (n *mnode) option(w *kit.World) godi.ModuleOption {
 		return removeOption(n.T, true)
 	case "nil":
 		return nil
+	case "gate":
+		return n.Gate
 	}
 	opts := make([]godi.ModuleOption, len(n.Children))
 	for i, c := range n.Children {
@@ -282,7 +288,7 @@ func TestC20Modules(t *testing.T) {
 			}
 		}
 		if refB.tainted != "" {
-			col.Label("partial-removal(providers not compared)")
+			col.Label("tainted(providers not compared)")
 		}
 		if f == nil && refB.tainted == "" {
 			ra, rb := kit.NewRunner(wa), kit.NewRunner(wb)
@@ -338,4 +344,139 @@ func renderObs(o *kit.Obs) string {
 		}
 	}
 	return strings.Join(parts, ",")
+}
+
+func (n *mnode) modules(out *[]*mnode) {
+	if n.Leaf != "" {
+		return
+	}
+	*out = append(*out, n)
+	for _, c := range n.Children {
+		c.modules(out)
+	}
+}
+
+// TestC20Shared: a module is a value that can be applied to any number of
+// collections (package-level module variables are the documented style).
+// Applying one module value to a second collection while its application to a
+// first one is still in progress must give both exactly what a lone
+// application gives.
+func TestC20Shared(t *testing.T) {
+	col := evid.New("C20", "shared-module-value", "one generated module tree (same generator as the tree-vs-flat part) is turned into module values once; goroutine 1 applies them to collection A and is parked inside an entry of a generated position of the tree (an entry that registers nothing); the main goroutine then applies the same values to collection A2 to completion, releases goroutine 1, and finally applies them to a third collection A3 with nothing else going on; oracle: no panic, no hang, and A, A2 and A3 end up with the same error (text and class) and the same Count/ToSlice/Contains*; non-trivial = goroutine 1 was parked inside a nested module")
+	defer col.Flush()
+	rapid.Check(t, func(rt *rapid.T) {
+		var regs []kit.Reg
+		ntop := rapid.IntRange(1, 3).Draw(rt, "ntop")
+		var tops []*mnode
+		for i := 0; i < ntop; i++ {
+			tops = append(tops, genTree(rt, 1, &regs))
+		}
+		var mods []*mnode
+		for _, n := range tops {
+			n.modules(&mods)
+		}
+		host := rapid.SampledFrom(mods).Draw(rt, "gatehost")
+		pos := rapid.IntRange(0, len(host.Children)).Draw(rt, "gatepos")
+		ca, ca2, ca3 := godi.NewCollection(), godi.NewCollection(), godi.NewCollection()
+		parked, release := make(chan struct{}), make(chan struct{})
+		gate := &mnode{Leaf: "gate", Gate: func(c godi.Collection) error {
+			if c == ca {
+				close(parked)
+				<-release
+			}
+			return nil
+		}}
+		host.Children = append(host.Children[:pos:pos], append([]*mnode{gate}, host.Children[pos:]...)...)
+		w, _ := kit.NewWorld(&kit.Config{})
+		w.Cfg = &kit.Config{Regs: append([]kit.Reg(nil), regs...)}
+		opts := make([]godi.ModuleOption, len(tops))
+		for i, n := range tops {
+			opts[i] = n.option(w)
+		}
+		desc := make([]string, len(tops))
+		for i, n := range tops {
+			desc[i] = n.String()
+		}
+		canon := strings.Join(desc, " | ") + " || regs: " + w.Cfg.String()
+		type res struct {
+			err error
+			pan any
+		}
+		apply := func(c godi.Collection) (r res) {
+			defer func() { r.pan = recover() }()
+			r.err = c.AddModules(opts...)
+			return
+		}
+		doneA := make(chan res, 1)
+		go func() { doneA <- apply(ca) }()
+		didPark := false
+		var rA res
+		gotA := false
+		select {
+		case <-parked:
+			didPark = true
+		case rA = <-doneA:
+			gotA = true
+		case <-time.After(20 * time.Second):
+			rt.Fatalf("VIOLATION C20/no-hang [first]: applying the modules to the first collection did not return\n%s", canon)
+		}
+		done2 := make(chan res, 1)
+		go func() { done2 <- apply(ca2) }()
+		var r2 res
+		select {
+		case r2 = <-done2:
+		case <-time.After(20 * time.Second):
+			close(release)
+			rt.Fatalf("VIOLATION C20/no-hang [second]: applying the module values to a second collection blocks while their application to the first one is in progress\n%s", canon)
+		}
+		if didPark {
+			close(release)
+		}
+		if !gotA {
+			select {
+			case rA = <-doneA:
+			case <-time.After(20 * time.Second):
+				rt.Fatalf("VIOLATION C20/no-hang [first-after-release]\n%s", canon)
+			}
+		}
+		r3 := apply(ca3)
+		depth := 0
+		var leaves []flatLeaf
+		for _, n := range tops {
+			n.flatten(nil, &leaves)
+		}
+		for _, lf := range leaves {
+			if lf.N == gate {
+				depth = len(lf.Path)
+			}
+		}
+		col.Case(didPark && depth >= 2, canon, canon, fmt.Sprintf("parked=%v", didPark), fmt.Sprintf("gate-depth=%d", min(depth, 4)))
+		render := func(r res, c godi.Collection) string {
+			e := "<nil>"
+			if r.err != nil {
+				e = voidKeyRe.ReplaceAllString(r.err.Error(), "v#") + "/" + kit.Classify(r.err)
+			}
+			cont := ""
+			for _, ty := range c17Types {
+				cont += fmt.Sprintf("%v%v", c.Contains(kit.RType(ty)), c.ContainsKeyed(kit.RType(ty), "a"))
+			}
+			return fmt.Sprintf("err=%s count=%d shape=[%s] contains=%s", e, c.Count(), sliceShape(c), cont)
+		}
+		var f *Failure
+		switch {
+		case rA.pan != nil || r2.pan != nil || r3.pan != nil:
+			f = fail("C20", "no-panic", "shared", "AddModules panicked: %v / %v / %v", rA.pan, r2.pan, r3.pan)
+		case render(r2, ca2) != render(r3, ca3):
+			f = fail("C20", "shared-module", "overlapping-second", "the collection that received the module values while their first application was in progress differs from a lone application:\n  overlapped: %s\n  alone:      %s", render(r2, ca2), render(r3, ca3))
+		case render(rA, ca) != render(r3, ca3):
+			f = fail("C20", "shared-module", "overlapped-first", "the collection whose application was overlapped differs from a lone application:\n  overlapped: %s\n  alone:      %s", render(rA, ca), render(r3, ca3))
+		}
+		if f != nil {
+			if isKnown(f) {
+				col.Excluded()
+				return
+			}
+			rt.Fatalf("VIOLATION %s\ntree: %s", f, canon)
+		}
+	})
 }
